@@ -25,6 +25,8 @@ pub enum WOp {
     ZetaP { t: bool, k: u32, v: u64 },
     /// std::io::Write::write(bytes)
     IoWrite(Vec<u8>),
+    /// std::io::Write::flush
+    IoFlush,
     /// copy n bits from a fresh source reader (kind `src`) over the fixed source image,
     /// advanced by k bits and optionally peeked; `from`: dst.copy_from(src) else src.copy_to(dst)
     CopyIn { src: u8, k: u16, peek: bool, n: u16, from: bool },
@@ -41,6 +43,7 @@ impl WOp {
             WOp::Code { .. } => "code_write",
             WOp::GammaP { .. } | WOp::DeltaP { .. } | WOp::Zeta3P { .. } | WOp::ZetaP { .. } => "code_write_param",
             WOp::IoWrite(_) => "io_write",
+            WOp::IoFlush => "io_flush",
             WOp::CopyIn { from: false, .. } => "copy_to",
             WOp::CopyIn { from: true, .. } => "copy_from",
             WOp::Disp { .. } => "dispatch_write",
@@ -105,6 +108,9 @@ pub trait MaybeIoWrite {
     fn io_write(&mut self, _b: &[u8]) -> Option<std::io::Result<usize>> {
         None
     }
+    fn io_flush(&mut self) -> Option<std::io::Result<()>> {
+        None
+    }
 }
 impl<WW: WordWrite> MaybeIoWrite for BufBitWriter<BE, WW>
 where
@@ -113,6 +119,9 @@ where
     fn io_write(&mut self, b: &[u8]) -> Option<std::io::Result<usize>> {
         Some(std::io::Write::write(self, b))
     }
+    fn io_flush(&mut self) -> Option<std::io::Result<()>> {
+        Some(std::io::Write::flush(self))
+    }
 }
 impl<WW: WordWrite> MaybeIoWrite for BufBitWriter<LE, WW>
 where
@@ -120,6 +129,9 @@ where
 {
     fn io_write(&mut self, b: &[u8]) -> Option<std::io::Result<usize>> {
         Some(std::io::Write::write(self, b))
+    }
+    fn io_flush(&mut self) -> Option<std::io::Result<()>> {
+        Some(std::io::Write::flush(self))
     }
 }
 impl<E: Endianness, BW: BitWrite<E>> MaybeIoWrite for CountBitWriter<E, BW> {}
@@ -201,6 +213,11 @@ fn raw_apply<E: Endianness, W: WrAll<E>>(w: &mut W, op: &WOp) -> WObs {
             Some(Ok(n)) => WObs::Ret(n),
             Some(Err(e)) => WObs::Err(format!("{e}")),
         },
+        WOp::IoFlush => match w.io_flush() {
+            None => WObs::Unsupported,
+            Some(Ok(())) => WObs::Unit,
+            Some(Err(e)) => WObs::Err(format!("{e}")),
+        },
         WOp::CopyIn { src, k, peek, n, from } => match w.copy_in(*src, *k, *peek, *n, *from) {
             Ok(()) => WObs::Unit,
             Err(e) => WObs::Err(e),
@@ -270,6 +287,10 @@ pub fn model_apply(bits: &mut Bits, op: &WOp, e: End, wbits: usize) -> Option<WO
                 bits.push_field(*x as u128, 8, e);
             }
             WObs::Ret(b.len())
+        }
+        WOp::IoFlush => {
+            bits.pad_to(wbits);
+            WObs::Unit
         }
         WOp::CopyIn { k, n, .. } => {
             let src = Bits::from_bytes(&copy_src_image(), e);
